@@ -522,7 +522,6 @@ def main():
             results.append(r)
             log("[chk] %-44s %-12s checks=%-5d cbmc=%ss wall=%.0fs %s" % (
                 r["name"], r["status"], r["checks"], r["time"], r["wall"], r.get("why", "")))
-    subprocess.run("pkill -9 -x cbmc", shell=True)
 
     failed = [r for r in results if r["status"] == "failed"]
     inconclusive = [(r["name"], r.get("why", "")) for r in results if r["status"] == "inconclusive"]
